@@ -19,7 +19,7 @@ pub struct Case {
     pub probe: Option<String>,
 }
 
-pub const PROBES: [&str; 18] = [
+pub const PROBES: [&str; 19] = [
     "pronoun_after_if",
     "pronoun_write_after_if",
     "pronoun_after_call",
@@ -38,6 +38,7 @@ pub const PROBES: [&str; 18] = [
     "pronoun_after_element_read",
     "pronoun_as_index",
     "function_visible_again_after_shadowing_call",
+    "duplicate_parameter",
 ];
 
 impl Prop for C05 {
